@@ -15,7 +15,7 @@ sys.path.insert(0, str(ROOT / "harness"))
 import lib  # noqa: E402
 
 ORDER = ["Model/Enum.v", "Proofs/EnumCollect.v", "Proofs/EnumBits.v", "Proofs/EnumTables.v", "Proofs/EnumProofs.v",
-         "Corr/EnumCorr.v", "Properties/C04.v", "Properties/C12.v", "Properties/C14.v"]
+         "Corr/EnumCorr.v", "Proofs/EnumPb.v", "Properties/C04.v", "Properties/C12.v", "Properties/C14.v"]
 
 
 class DevRun(lib.Run):
